@@ -22,6 +22,7 @@ type SpecCtx struct {
 	inOld     bool
 	fnName    string // enclosing Go function (for function-typed parameters)
 	fr        *frame // enclosing frame (for atloop)
+	loop      *LoopInfo   // loop whose clause is being evaluated (for entry(x))
 	vis       *rangeGhost // visited-set ghost of the range-over-map loop whose invariant is being evaluated
 }
 
@@ -837,6 +838,55 @@ func (c *SpecCtx) evalCall(e *ECall) Val {
 		c.inOld = true
 		v := c.eval(e.Args[0])
 		c.st, c.lookup, c.inOld = saveSt, saveLk, saveIn
+		return v
+	case "entry":
+		// entry(x): the value the loop-carried variable x had when this loop was entered
+		id, isId := e.Args[0].(*EIdent)
+		if c.loop == nil || !isId || c.loop.entryVals == nil {
+			c.fail("entry(x) is only available in loop invariants, for a loop-carried variable")
+		}
+		for phi, v := range c.loop.entryVals {
+			if phi.Comment == id.Name {
+				return v
+			}
+		}
+		c.fail("entry(%s): no loop-carried variable of that name", id.Name)
+	case "iter":
+		// iter(x): the value the loop-carried variable x has at the loop header in the current iteration
+		id, isId := e.Args[0].(*EIdent)
+		if c.loop == nil || !isId || c.loop.hdrVals == nil {
+			c.fail("iter(x) is only available in clauses of a loop, for a loop-carried variable")
+		}
+		for phi, v := range c.loop.hdrVals {
+			if phi.Comment == id.Name {
+				return v
+			}
+		}
+		c.fail("iter(%s): no loop-carried variable of that name", id.Name)
+	case "atiter":
+		// atiter(k, e): e evaluated in the memory state at the header of loop k in the current iteration
+		if c.fr == nil || len(e.Args) != 2 {
+			c.fail("atiter(k, e) not available here")
+		}
+		kv := c.eval(e.Args[0])
+		if !kv.isConst() {
+			c.fail("atiter: loop ordinal must be a constant")
+		}
+		k64, _ := constant.Int64Val(kv.Const)
+		var hst *State
+		for _, ol := range c.fr.loops {
+			if ol.ordinal == int(k64) {
+				hst = ol.hdrSt
+			}
+		}
+		if hst == nil {
+			c.fail("atiter(%d, ...): loop %d has not been entered on this path", k64, k64)
+		}
+		saveSt, saveIn := c.st, c.inOld
+		c.st = hst
+		c.inOld = true
+		v := c.eval(e.Args[1])
+		c.st, c.inOld = saveSt, saveIn
 		return v
 	case "atloop":
 		// atloop(k, e): e evaluated in the state in which loop k was entered (e.g. right after a barrier)
